@@ -1,4 +1,5 @@
 import OsacaVerif.Lemmas.EndToEnd
+import OsacaVerif.Lemmas.EndToEndReport
 import OsacaVerif.Props.C08
 import OsacaVerif.Props.C11Pipeline
 import OsacaVerif.Props.C13
@@ -594,5 +595,290 @@ theorem e2e_noise_transparent_lines (m : Model) (o1 o2 : Opts) (s1 s2 : Txt) (R1
     e2e_noise_transparent_text m o1 o2 hfd hfl xs ys n hne hnl hn r1 r2 h1 h2
       (fun x => R1.contains (x : Int)) (fun x => R2.contains (x : Int)) hk1 hk2 hS
   exact ⟨a₀, g1, g2, i1, i2, q1, q2⟩
+
+/-! ### 5. the report reads back -/
+
+/-- **the pipeline's output satisfies the well-formedness hypotheses of `Props.C13.report_roundtrip`**
+    (∀ models with at least one port whose names can stand in the port line, ∀ `repr` whose texts are
+    single tokens, ∀ files and options): one pressure value and one used-port bit per port on every
+    kernel line (`assign_tp_lt` leaves `len(ports)` values on every path: own entry, composition,
+    unknown, non-instruction), kernel texts without line feed (they are lines of the file), column sums
+    empty or one per port. -/
+theorem e2e_report_wf (m : Model) (o : Opts) (file : Txt) (r : Result) (h : analyseX86 m o file = .ok r)
+    (hports : m.mm.ports ≠ []) (hnames : ∀ n ∈ m.mm.ports, Report.NameOk n ∧ Report.NoNL n)
+    (hrepr : ∀ q, Report.TokOk (o.repr q) ∧ Report.WordOk (o.repr q) ∧ Report.NoNL (o.repr q)) :
+    Report.WF r.report := by
+  obtain ⟨fs, k, hc, hs, hk, he, hr⟩ := analyse_ok_inv m o file r h
+  have hsub := select_sublist _ _ _ hs
+  have hlines := linesOf_file m _ fs hc
+  -- every kernel line is a line of the file without exception
+  have hline : ∀ l ∈ k, ∃ t, t ∈ splitLines file ∧ l = (lineOfText m l.num t).pl ∧ (lineOfText m l.num t).err = none := by
+    intro l hl
+    have hl' := hsub.subset hl
+    rw [hlines] at hl'
+    obtain ⟨t, ht, e⟩ := textLines_mem m _ l hl'
+    refine ⟨t, numbered_mem_text 0 0 _ _ ht, e, ?_⟩
+    have hmem : lineOfText m l.num t ∈ linesOf m fs := by
+      rw [hlines]; exact List.mem_map.mpr ⟨(l.num, t), ht, rfl⟩
+    exact firstErr_none _ _ he _ hmem l hl (by simp)
+  have hlen : ∀ l ∈ k, (semOf m.mm.ports.length l).pressure.length = m.mm.ports.length ∧
+      (semOf m.mm.ports.length l).used.length = m.mm.ports.length := by
+    intro l hl
+    obtain ⟨t, _, e, herr⟩ := hline l hl
+    rw [e]
+    have := lineOfText_lens m l.num t herr
+    simpa using this
+  have hrep : r.report = toReport o.repr m.mm.ports o.ignoreUnknown m.mm.ports.length k (analyze (EndToEnd.cfgOf m o) k) := by
+    rw [hr, resultOf]
+  rw [hrep]
+  refine ⟨hports, hnames, ?_, ?_, ?_, ?_, ?_, ?_⟩
+  · simpa [toReport] using hk
+  · intro row hrow
+    simp only [toReport] at hrow
+    obtain ⟨l, hl, rfl⟩ := List.mem_map.mp hrow
+    obtain ⟨t, ht, e, _⟩ := hline l hl
+    refine ⟨(hlen l hl).1, (hlen l hl).2, ?_⟩
+    have : l.text = t := by rw [e]; exact lineOfText_text m _ t
+    show Report.NoNL l.text
+    rw [this]
+    exact (splitLines_spec file).2.1 t ht
+  · intro p hp
+    simp only [toReport] at hp
+    obtain ⟨q, _, rfl⟩ := List.mem_map.mp hp
+    exact ⟨(hrepr q.2).1, (hrepr q.2).2.2⟩
+  · intro d hd
+    simp only [toReport] at hd
+    obtain ⟨q, _, rfl⟩ := List.mem_map.mp hd
+    refine ⟨?_, (hrepr _).2.1, (hrepr _).2.2⟩
+    intro mem hmem
+    obtain ⟨x, _, rfl⟩ := List.mem_map.mp hmem
+    exact ⟨(hrepr x.2).1, (hrepr x.2).2.2⟩
+  · exact ⟨(hrepr _).2.1, (hrepr _).2.2⟩
+  · show (analyze (EndToEnd.cfgOf m o) k).colSums = [] ∨ (analyze (EndToEnd.cfgOf m o) k).colSums.length = m.mm.ports.length
+    apply colSums_len
+    intro pl hpl
+    obtain ⟨l, hl, rfl⟩ := List.mem_map.mp hpl
+    exact (hlen l hl).1
+
+/-- **e2e_report_roundtrip** (`Props.C13.report_roundtrip` lifted through the composition): the table the
+    pipeline prints for a file reads back (`Spec.Report.parseTable`) to the view of the analysis the pipeline
+    computed — port columns, every line with its pressure cells at the shown precision, CP and LCD cells,
+    flag symbols, texts, and the totals line or the missing-data warning with its number; and the printed
+    text is that table between the header block and the LCD list. -/
+theorem e2e_report_roundtrip (m : Model) (o : Opts) (file : Txt) (r : Result) (h : analyseX86 m o file = .ok r)
+    (hports : m.mm.ports ≠ []) (hnames : ∀ n ∈ m.mm.ports, Report.NameOk n ∧ Report.NoNL n)
+    (hrepr : ∀ q, Report.TokOk (o.repr q) ∧ Report.WordOk (o.repr q) ∧ Report.NoNL (o.repr q)) :
+    Spec.Report.parseTable (Report.combinedView r.report) = some (Report.view r.report) ∧
+    (∃ pre post, r.text = pre ++ Report.combinedView r.report ++ post) ∧
+    r.report.rows.map (·.line) = r.kernel.map (·.num) ∧
+    r.report.tpSum = r.analysis.colSums ∧
+    r.report.cp.map (·.1) = r.analysis.cpMarks.map (·.1) := by
+  have hwf := e2e_report_wf m o file r h hports hnames hrepr
+  obtain ⟨fs, k, hc, hs, hk, he, hr⟩ := analyse_ok_inv m o file r h
+  refine ⟨Props.C13.report_roundtrip r.report hwf, ?_, ?_, ?_, ?_⟩
+  · obtain ⟨_, k', _, _, _, _, _, _, _, _, ht⟩ := e2e_factors_ok m o file r h
+    refine ⟨Report.headerReport o.version o.file o.arch o.stamp ++
+        Report.warningsHeader (Report.archWarningFlag o.archGiven)
+          (Report.lengthWarningFlag (linesGiven o.mode) k'.length r.parsed.length) ++ Report.symbolMap,
+      Report.warningsFooter false ++ Report.lcdList r.report, ?_⟩
+    rw [ht, Report.fullAnalysis]
+    simp only [List.append_assoc]
+  · rw [hr]; simp [resultOf, toReport]
+  · rw [hr]; simp [resultOf, toReport]
+  · rw [hr]; simp [resultOf, toReport]
+
+/-! ### non-vacuity: a concrete model and file, evaluated by the kernel
+
+  Model: two ports `0`, `1`; one entry `ADD gpr, gpr` (throughput 1, latency 1, one micro-op on `01`); load
+  default `[[1, '0']]`, load latency 4 for `gpr`; the shipped x86 ISA database `Gen.isaDbX86`.
+  File:
+      1  addq (%rax), %rbx      memory-composed: register form `ADD gpr, gpr` through the `q` fall-back + load
+      2  # note                 comment-only line
+      3  foo %rbx, %rcx         unknown mnemonic (default roles: last operand destination)
+      4  addq %rcx, %rbx        own entry through the fall-back
+  Dependency edges: load node of 1 → 1 (4), 1 → 3, 1 → 4, 3 → 4; critical path 6; LCD 1-4 and 1-3-4. -/
+namespace Ex
+
+def gpr : Txt := [103, 112, 114]
+def gprE : Operand.EOperand := .reg (some gpr) none none
+def mm : Compose.MModel :=
+  { isa := .x86, ports := [[48], [49]]
+    db := [{ name := [65, 68, 68], operands := [gprE, gprE], tp := .num 1, lat := .num 1,
+             pp := .list [.list [.num 1, .str [48, 49]]] }]
+    loadRows := [], loadDefault := .list [.list [.num 1, .str [48]]], storeRows := [], storeDefault := .list []
+    loadLatency := [(.str gpr, .num 4)], loadMult := none, storeMult := none }
+def model : Model := { mm := mm, isaDb := Gen.isaDbX86 }
+
+/-- a stand-in for `repr(float)`, good for integers and halves -/
+def reprEx (q : Rat) : Txt := Fmt.natDigits q.floor.toNat ++ [46] ++ (if q.den == 1 then [48] else [53])
+
+def opts : Opts :=
+  { mode := .markers [120, 56, 54], repr := reprEx, version := [48], file := [107, 46, 115], arch := [83, 89, 78],
+    stamp := [110, 111, 119] }
+def optsL (spec : Txt) : Opts := { opts with mode := .lines spec }
+
+def l1 : Txt := [97, 100, 100, 113, 32, 40, 37, 114, 97, 120, 41, 44, 32, 37, 114, 98, 120]     -- addq (%rax), %rbx
+def ln : Txt := [35, 32, 110, 111, 116, 101]                                                    -- # note
+def lu : Txt := [102, 111, 111, 32, 37, 114, 98, 120, 44, 32, 37, 114, 99, 120]                 -- foo %rbx, %rcx
+def lk : Txt := [97, 100, 100, 113, 32, 37, 114, 98, 120, 44, 32, 37, 114, 99, 120]             -- addq %rbx, %rcx
+def l3 : Txt := [97, 100, 100, 113, 32, 37, 114, 99, 120, 44, 32, 37, 114, 98, 120]             -- addq %rcx, %rbx
+def foo : Txt := [102, 111, 111]
+
+def checkOk (x : Outcome) (p : Result → Bool) : Bool :=
+  match x with
+  | .ok r => p r
+  | _ => false
+
+theorem checkOk_elim {x : Outcome} {p : Result → Bool} (h : checkOk x p = true) : ∃ r, x = .ok r ∧ p r = true := by
+  cases x <;> simp [checkOk] at h
+  exact ⟨_, rfl, h⟩
+
+/-- the analysis of the four-line file, from its text: the memory-composed line (latency 1 + 4, pressure
+    `[1/2 + 1, 1/2]`, `performs_load`), the comment (zeros, not an instruction), the unknown line (zeros, both
+    unknown flags), the edges incl. the load node, critical path, LCD, column sums (the unknown line has
+    throughput 0 and is skipped), and the missing-data branch of the report -/
+example : checkOk (analyseX86 model opts (joinLines [l1, ln, lu, l3])) (fun r =>
+    r.analysis.rows.map (fun x => (x.line, x.instr, x.lat, x.latWoLoad, x.tp, x.pressure)) ==
+      [(1, true, 5, some 1, 1, [3/2, 1/2]), (2, false, 0, some 0, 0, [0, 0]), (3, true, 0, some 0, 0, [0, 0]),
+       (4, true, 1, some 1, 1, [1/2, 1/2])] &&
+    r.analysis.edges.map (fun e => (e.src.line, e.src.load, e.dst.line, e.w)) ==
+      [(1, true, 1, 4), (1, false, 3, 1), (1, false, 4, 1), (3, false, 4, 0)] &&
+    r.analysis.cpTotal == 6 && r.analysis.cpMarks == [(1, 5), (4, 1)] &&
+    r.analysis.lcdDict.map (fun d => (d.1, d.2.1)) == [([1, 4], 2), ([1, 3, 4], 2)] &&
+    r.analysis.lcdFigure == 2 && r.analysis.colSums == [2, 1] &&
+    r.report.rows.map (fun x => (x.line, x.flags, x.used)) ==
+      [(1, [Gen.flagHasLd], [true, true]), (2, [], [false, false]),
+       (3, [Gen.flagTpUnknown, Gen.flagLtUnknown], [false, false]), (4, [], [true, true])] &&
+    !Report.showsTotals r.report && r.kernel.length == 4 && r.parsed.length == 4) = true := by
+  decide +kernel
+
+/-- outcomes other than an analysis: a line the parser rejects, `--lines` that selects nothing, a malformed
+    `--lines` -/
+example : (match analyseX86 model opts (joinLines [l1, [37, 37], l3]) with | .parseError 2 _ => true | _ => false) = true := by
+  decide +kernel
+example : (match analyseX86 model (optsL [57]) (joinLines [l1, l3]) with | .emptyKernel => true | _ => false) = true := by
+  decide +kernel
+example : (match analyseX86 model (optsL [45]) (joinLines [l1, l3]) with | .badLines => true | _ => false) = true := by
+  decide +kernel
+
+/-- the model has no entry for `foo`, whatever the operands, with or without the fall-back spelling -/
+theorem no_foo : ∀ ops, Match.lookupWithFallbacks model.mm.isa model.mm.db foo ops = none := by
+  intro ops
+  have h1 : Match.getInstruction .x86 mm.db foo ops = none := by
+    simp [Match.getInstruction, mm, Match.entryMatches, foo, upper, upperC]
+  have h2 : Match.fallbackName .x86 foo = none := by decide +kernel
+  show Match.lookupWithFallbacks .x86 mm.db foo ops = none
+  simp [Match.lookupWithFallbacks, h1, h2]
+
+/-- `e2e_unknown_isolated` on the file: line 3 `addq %rbx, %rcx` replaced by `foo %rbx, %rcx` — both files are
+    analysed (hypotheses satisfiable), line 3 of the second analysis is zero, lines 1, 2, 4 are unchanged -/
+example : checkOk (analyseX86 model opts (joinLines ([l1, ln] ++ lk :: [l3]))) (fun _ => true) = true ∧
+    checkOk (analyseX86 model opts (joinLines ([l1, ln] ++ lu :: [l3]))) (fun _ => true) = true ∧
+    ∀ r1 r2, analyseX86 model opts (joinLines ([l1, ln] ++ lk :: [l3])) = .ok r1 →
+      analyseX86 model opts (joinLines ([l1, ln] ++ lu :: [l3])) = .ok r2 →
+      (∀ row ∈ r2.analysis.rows, row.line = 3 → row.tp = 0 ∧ row.lat = 0 ∧ row.pressure = [0, 0]) ∧
+      (∀ row1 ∈ r1.analysis.rows, ∀ row2 ∈ r2.analysis.rows, row1.line = row2.line → row1.line ≠ 3 → row1 = row2) := by
+  refine ⟨by decide +kernel, by decide +kernel, fun r1 r2 h1 h2 => ?_⟩
+  have h := e2e_unknown_isolated model opts [l1, ln] [l3] lk lu
+    (by decide +kernel) (by decide +kernel) (by decide +kernel) (by decide +kernel)
+    { mnemonic := some foo, operands := [.reg [114, 98, 120], .reg [114, 99, 120]] } foo (by decide +kernel) rfl
+    no_foo r1 r2 h1 h2
+  exact ⟨fun row hr hl => let x := h.2.1 row hr hl; ⟨x.2.1, x.2.2.1, x.2.2.2.2⟩, h.2.2.2⟩
+
+/-- the comment line is a noise line -/
+theorem ln_noise : IsNoise ln :=
+  ⟨by decide +kernel, { comment := some [110, 111, 116, 101] }, by decide +kernel, rfl⟩
+
+/-- `e2e_noise_transparent_text`, whole file: `[l1, lu, l3]` and `[l1, # note, lu, l3]` are both analysed
+    with the whole file as the kernel, and agree up to the renaming -/
+example : checkOk (analyseX86 model opts (joinLines ([l1] ++ [lu, l3]))) (fun r => r.kernel.length == r.parsed.length) = true ∧
+    checkOk (analyseX86 model opts (joinLines ([l1] ++ ln :: [lu, l3]))) (fun r => r.kernel.length == r.parsed.length) = true ∧
+    ∀ r1 r2, analyseX86 model opts (joinLines ([l1] ++ [lu, l3])) = .ok r1 →
+      analyseX86 model opts (joinLines ([l1] ++ ln :: [lu, l3])) = .ok r2 →
+      ∃ (a₀ : Analysis) (g1 g2 : Nat → Nat), Incr g1 ∧ Incr g2 ∧
+        SameOnInstr 2 r1.analysis (a₀.rename g1) ∧ SameOnInstr 2 r2.analysis (a₀.rename g2) := by
+  have c1 : checkOk (analyseX86 model opts (joinLines ([l1] ++ [lu, l3]))) (fun r => r.kernel.length == r.parsed.length) = true := by
+    decide +kernel
+  have c2 : checkOk (analyseX86 model opts (joinLines ([l1] ++ ln :: [lu, l3]))) (fun r => r.kernel.length == r.parsed.length) = true := by
+    decide +kernel
+  refine ⟨c1, c2, fun r1 r2 h1 h2 => ?_⟩
+  obtain ⟨r1', e1, q1⟩ := checkOk_elim c1
+  obtain ⟨r2', e2, q2⟩ := checkOk_elim c2
+  rw [h1] at e1; cases e1
+  rw [h2] at e2; cases e2
+  have k1 := ((e2e_rows_local model opts _ r1 h1).2.1).eq_of_length (by simpa using q1)
+  have k2 := ((e2e_rows_local model opts _ r2 h2).2.1).eq_of_length (by simpa using q2)
+  exact e2e_noise_transparent_whole_file model opts [l1] [lu, l3] ln (by simp)
+    (by decide +kernel) ln_noise r1 r2 h1 h2 k1 k2
+
+theorem shift_ok : ∀ x : Nat, ([1, 3, 4] : List Int).contains ((shiftAt 1 x : Nat) : Int) =
+    ([1, 2, 3] : List Int).contains (x : Int) := by
+  intro x
+  rcases x with _ | _ | _ | _ | x
+  · decide
+  · decide
+  · decide
+  · decide
+  · have e : shiftAt 1 (x + 4) = x + 5 := by simp [shiftAt]
+    rw [e]
+    have a : ([1, 3, 4] : List Int).contains ((x + 5 : Nat) : Int) = false := by
+      simp only [List.contains_eq_mem, List.mem_cons, List.not_mem_nil, or_false, decide_eq_false_iff_not]
+      omega
+    have b : ([1, 2, 3] : List Int).contains ((x + 4 : Nat) : Int) = false := by
+      simp only [List.contains_eq_mem, List.mem_cons, List.not_mem_nil, or_false, decide_eq_false_iff_not]
+      omega
+    rw [a, b]
+
+/-- `e2e_noise_transparent_lines`: `--lines 1,2-3` on the file without the comment and `--lines 1,3-4` on the file
+    with it -/
+example : checkOk (analyseX86 model (optsL [49, 44, 50, 45, 51]) (joinLines ([l1] ++ [lu, l3]))) (fun _ => true) = true ∧
+    checkOk (analyseX86 model (optsL [49, 44, 51, 45, 52]) (joinLines ([l1] ++ ln :: [lu, l3]))) (fun r => r.kernel.length == 3) = true ∧
+    ∀ r1 r2, analyseX86 model (optsL [49, 44, 50, 45, 51]) (joinLines ([l1] ++ [lu, l3])) = .ok r1 →
+      analyseX86 model (optsL [49, 44, 51, 45, 52]) (joinLines ([l1] ++ ln :: [lu, l3])) = .ok r2 →
+      ∃ (a₀ : Analysis) (g1 g2 : Nat → Nat), Incr g1 ∧ Incr g2 ∧
+        SameOnInstr 2 r1.analysis (a₀.rename g1) ∧ SameOnInstr 2 r2.analysis (a₀.rename g2) := by
+  refine ⟨by decide +kernel, by decide +kernel, fun r1 r2 h1 h2 => ?_⟩
+  exact e2e_noise_transparent_lines model (optsL [49, 44, 50, 45, 51]) (optsL [49, 44, 51, 45, 52])
+    [49, 44, 50, 45, 51] [49, 44, 51, 45, 52] [1, 2, 3] [1, 3, 4] rfl rfl
+    (by decide +kernel) (by decide +kernel) rfl rfl [l1] [lu, l3] ln (by simp)
+    (by decide +kernel) ln_noise shift_ok r1 r2 h1 h2
+
+theorem names_ok : ∀ n ∈ model.mm.ports, Report.NameOk n ∧ Report.NoNL n := by
+  intro n hn
+  have : n = [48] ∨ n = [49] := by simpa [model, mm] using hn
+  rcases this with rfl | rfl <;> exact ⟨⟨by decide, by decide⟩, by unfold Report.NoNL; decide⟩
+
+theorem reprEx_ok (q : Rat) : Report.TokOk (reprEx q) ∧ Report.WordOk (reprEx q) ∧ Report.NoNL (reprEx q) := by
+  have hd : ∀ c ∈ reprEx q, (48 ≤ c ∧ c ≤ 57) ∨ c = 46 := by
+    intro c hc
+    simp only [reprEx, List.mem_append, List.mem_singleton] at hc
+    rcases hc with (h | h) | h
+    · have := Fmt.natDigits_digits _ c h
+      simp [isDigitC] at this; exact Or.inl this
+    · exact Or.inr h
+    · split at h <;> simp at h <;> omega
+  refine ⟨?_, ⟨?_, ?_⟩, ?_⟩
+  · intro c hc
+    rcases hd c hc with h | h <;> simp [Spec.Report.isTokC] <;> omega
+  · simp [reprEx]
+  · intro h; rcases hd 32 h with h | h <;> omega
+  · intro h; rcases hd 10 h with h | h <;> omega
+
+/-- `e2e_report_roundtrip` on the file: the hypotheses hold for the example model and `reprEx`, the file is analysed,
+    and the table the pipeline prints reads back to the view of its analysis -/
+example : checkOk (analyseX86 model opts (joinLines [l1, ln, lu, l3])) (fun _ => true) = true ∧
+    ∀ r, analyseX86 model opts (joinLines [l1, ln, lu, l3]) = .ok r →
+      Spec.Report.parseTable (Report.combinedView r.report) = some (Report.view r.report) := by
+  refine ⟨by decide +kernel, fun r h => ?_⟩
+  exact (e2e_report_roundtrip model opts _ r h (by decide) names_ok reprEx_ok).1
+
+/-- `e2e_per_line_local_files`: line 4 of the long file and line 3 of the short one have the same text, hence the
+    same per-instruction data, under different options -/
+example : ∀ r1 r2, analyseX86 model opts (joinLines [l1, ln, lu, l3]) = .ok r1 →
+    analyseX86 model (optsL [49, 44, 50, 45, 51]) (joinLines [l1, lu, l3]) = .ok r2 →
+    ∀ p1 ∈ r1.parsed, ∀ p2 ∈ r2.parsed, p1.text = p2.text → eraseNum p1 = eraseNum p2 :=
+  fun r1 r2 h1 h2 p1 hp1 p2 hp2 ht => e2e_per_line_local_files model _ _ _ _ r1 r2 h1 h2 p1 p2 hp1 hp2 ht
+
+end Ex
 
 end OsacaVerif.Props.EndToEnd
